@@ -221,3 +221,12 @@ def shards(tier, seed):
             out.append(dict(name=f"n3m4-frac4-{p[0]}{p[1]}", fn="h_history",
                             kwargs=dict(n_events=3, n_ins=4, den=4, use_interval=True, prefix=[[0, 1], list(p)]), budget=900, per_path=30))
     return out
+
+MANIFEST = dict(
+    engine="symex",
+    technique="symbolic execution (CrossHair/z3) of DeltaSimpleTemporalNetwork with symbolic bounds; closed-form negative-cycle and least-solution oracles as solver queries per path",
+    text="Bounded model checking: for every insertion history within the stated bounds and EVERY integer (or k/4 rational) value of every bound, "
+         "check_stn equals satisfiability of the inserted constraints and get_stn_model is the least non-negative solution; copies evolve independently. "
+         "All path trees are exhausted in the quick tier, so inside the bounds this is a for-all-values claim, not sampling.",
+    note="Trusted: CrossHair's int/Fraction models and z3; the closed-form oracle (simple cycles of the concrete multigraph). Outside: >4 events, >5 insertions, epsilon != 0, floats.",
+)
